@@ -1760,6 +1760,7 @@ class GenericNote(TimedObject):
                 "slur_starts",
                 "tuplet_stops",
                 "tuplet_starts",
+                "fermata",
             ]
         )
 
@@ -2574,6 +2575,9 @@ class Fermata(TimedObject):
         super().__init__()
         # ref(erent) can be a note or a barline
         self.ref = ref
+        # update the reference when cloning this instance (a barline location
+        # given as a string is left alone by replace_refs)
+        self._ref_attrs.append("ref")
 
     def __str__(self):
         return f"{super().__str__()} ref={self.ref}"
